@@ -558,6 +558,8 @@ func AnnotationKey(short string) string {
 		return edsv1.ExtendedDaemonSetCanaryValidAnnotationKey
 	case "old-ds":
 		return edsv1.ExtendedDaemonSetOldDaemonsetAnnotationKey
+	case "tmpl-hash":
+		return edsv1.MD5ExtendedDaemonSetAnnotationKey
 	}
 	return short
 }
